@@ -270,6 +270,15 @@ func (b *boundsCtx) implicit() []lin {
 						out = append(out, inner.add(one, -1))
 					}
 				}
+			case strings.HasSuffix(x.Callee, "base64.Encoding).DecodedLen") && len(x.Args) == 2:
+				// 0 <= DecodedLen(n) <= n for n >= 0
+				out = append(out, one)
+				out = append(out, b.linOf(x.Args[1]).add(one, -1))
+			case strings.HasSuffix(x.Callee, "base64.Encoding).EncodedLen") && len(x.Args) == 2:
+				// 0 <= EncodedLen(n) <= 2n + 4
+				out = append(out, one)
+				up := lin{t: map[string]int64{}, k: 4}.add(b.linOf(x.Args[1]), 2)
+				out = append(out, up.add(one, -1))
 			case strings.HasSuffix(x.Callee, ".BlockSize"):
 				l := one.clone()
 				l.k = -1
